@@ -67,7 +67,10 @@ def expected(full, exp):
 def check_config(cfg, exp, variant):
     """Returns list of (component, expected, actual, note)."""
     shape = tuple(cfg['shape'])
-    z = get_zoo(shape)
+    zfull = get_zoo(shape)             # full-size results, computed once on objects that are never asked for a view
+    z = zoo.Zoo(shape)                 # the viewed requests go to a FRESH dataset: nothing was evaluated on it before
+    z.full = zfull.full
+    z.fact = zoo.selection_factories(z)
     view = concretise(cfg, variant)
     bad = []
     for k, cid in z.attributes().items():
